@@ -57,7 +57,7 @@ func propC07(r *Run) {
 			facs = append(facs, f)
 			lts = append(lts, lt)
 		}
-		users := []string{"alice", "bob", "a.user", "x.admin", "0", "d@example.org", "true", "false", strings.Repeat("n", 200)}
+		users := []string{"alice", "bob", "a.user", "x.admin", "0", "d@example.org", "true", "false", strings.Repeat("n", 200), "carol@Example.ORG", "Dave@example.org", "e@x@Y"}
 		var toks []issuedTok
 		presented := 0
 		// present checks one string against factory fi at the current fake time
